@@ -90,6 +90,14 @@
 //	           never ready and dropped. Other selects, v := <-ch, close, channels of pointers: rejected.
 //	atomics    (round 6) CompareAndSwap on sync/atomic integers; sync/atomic.Pointer[T] (T a struct)
 //	           is the *T it holds: Load / Store. All single sequential steps.
+//	generators (round 7) a function returning iter.Seq[T] (T a struct) by `return func(yield func(T) bool)
+//	           { ... }, rest` is translated to the LIST of the values it yields: yield(v) appends,
+//	           `if !yield(v) { return }` appends and goes on, a bare return ends the list. This is what a
+//	           consumer that drains the sequence sees: `for v := range seq` is accepted only when its
+//	           body has no break / return / continue, and a Seq value has no other use.
+//	stride     (round 7) for i := lo; i < hi; i += k with a constant k > 1 (stride_loop; hi above
+//	           MaxInt64 - k is GPanic: stricter than Go, whose i += k would wrap). min / max.
+//	Body.Chunk (round 7) on the abstract-bytes wire.Body: wire.chunkView on the bytes (translated).
 //	results    (round 6) named results are accepted when the name is documentation only (never read
 //	           or assigned, every return explicit).
 //
@@ -393,9 +401,11 @@ type tr2 struct {
 	stubOnly bool
 	extOK    bool // an external function field is being read on purpose (call / nil test)
 	// receiver of a state-passing method (written through): every return also returns it
-	mutRecv types.Object
-	selfRec *types.Func // the self-recursive function being translated (calls pass the fuel)
-	curSeq  int         // emission rank of the function being translated
+	mutRecv  types.Object
+	selfRec  *types.Func  // the self-recursive function being translated (calls pass the fuel)
+	genYield types.Object // inside a generator closure: its yield parameter (= the list yielded so far)
+	genFin   string       // ... and what the enclosing function returns when the generation ends
+	curSeq   int          // emission rank of the function being translated
 }
 
 func (t *tr2) fail(n ast.Node, f string, a ...any) {
@@ -592,6 +602,22 @@ func chanElem(ty types.Type) (types.Type, bool) {
 	return nil, false
 }
 
+// seqElem: iter.Seq[T], T a struct of a translated package. A generator is translated to the LIST of
+// the values it yields, in order (generator-to-list rule): this is what a consumer that drains it
+// sees, so every consumer must be a `for v := range seq` whose body neither breaks nor returns
+// (checked), and the generator's `if !yield(v) { return }` is then never taken.
+func seqElem(ty types.Type) (*types.Named, bool) {
+	n, ok := ty.(*types.Named)
+	if !ok || n.Obj().Pkg() == nil || n.Obj().Pkg().Path() != "iter" || n.Obj().Name() != "Seq" {
+		return nil, false
+	}
+	if n.TypeArgs() == nil || n.TypeArgs().Len() != 1 {
+		return nil, false
+	}
+	e, _, isS := namedStruct(n.TypeArgs().At(0))
+	return e, isS
+}
+
 func isAbstractBytes(ty types.Type) bool {
 	n, ok := ty.(*types.Named)
 	if !ok || n.Obj().Pkg() == nil {
@@ -615,6 +641,9 @@ func (t *tr2) typeOK(ty types.Type) bool {
 	}
 	if p, ok := atomicPtrElem(ty); ok {
 		return t.typeOK(p)
+	}
+	if e, ok := seqElem(ty); ok {
+		return t.g.mods[e.Obj().Pkg().Path()] != ""
 	}
 	if e, ok := chanElem(ty); ok {
 		return t.typeOK(e)
@@ -903,6 +932,10 @@ func (t *tr2) ctype(n ast.Node, ty types.Type) string {
 	if p, ok := atomicPtrElem(ty); ok && t.typeOK(ty) {
 		return t.ctype(n, p)
 	}
+	if e, ok := seqElem(ty); ok && t.typeOK(ty) {
+		r := t.record(e)
+		return "(list " + t.q(r.mod, r.name) + ")"
+	}
 	if e, ok := chanElem(ty); ok && t.typeOK(ty) {
 		return "(gchan " + t.ctype(n, e) + ")"
 	}
@@ -977,6 +1010,9 @@ func (t *tr2) zero(n ast.Node, ty types.Type) string {
 	}
 	if _, ok := atomicPtrElem(ty); ok {
 		return "None"
+	}
+	if _, ok := seqElem(ty); ok {
+		return "[]"
 	}
 	if _, ok := chanElem(ty); ok {
 		return "(mk_gchan [] 0)" // a nil channel: nothing can be sent or received
